@@ -171,7 +171,12 @@ func c19GenOne(t *rapid.T) c19Case {
 			}
 			c.Entries = append(c.Entries, c19GenEntry(t, rapid.SampledFrom(pool).Draw(t, "bname")))
 		}
-		c.Entries = append(c.Entries, c19GenEntry(t, rapid.SampledFrom(c19Parts[fam]).Draw(t, "part")))
+		part := rapid.SampledFrom(c19Parts[fam]).Draw(t, "part")
+		if rapid.IntRange(0, 19).Draw(t, "longname") == 0 && !strings.HasSuffix(part, "/") {
+			// names up to 65535 bytes are legal
+			part = fam + strings.Repeat("very-long-directory-name/", rapid.SampledFrom([]int{40, 170, 800, 2500}).Draw(t, "namereps")) + "part.xml"
+		}
+		c.Entries = append(c.Entries, c19GenEntry(t, part))
 		for i, k := 0, rapid.IntRange(0, 3).Draw(t, "after"); i < k; i++ {
 			pool := append(append([]string{}, c19Parts[fam]...), c19Bookkeeping...)
 			c.Entries = append(c.Entries, c19GenEntry(t, rapid.SampledFrom(pool).Draw(t, "aname")))
@@ -189,6 +194,8 @@ func c19GenOne(t *rapid.T) c19Case {
 		c.Entries = append(c.Entries, c19Entry{Name: "mimetype", Method: 0, Stream: rapid.Bool().Draw(t, "mstream"), Body: vfB(c.Want)})
 		for i, k := 0, rapid.IntRange(0, 5).Draw(t, "more"); i < k; i++ {
 			pool := []string{"META-INF/manifest.xml", "META-INF/container.xml", "content.xml", "styles.xml", "meta.xml", "settings.xml", "Thumbnails/thumbnail.png", "OEBPS/content.opf", "OEBPS/toc.ncx", "Pictures/1.png"}
+			// a package identified by its leading mimetype entry may also carry JAR / APK marker names
+			pool = append(pool, "META-INF/MANIFEST.MF", "AndroidManifest.xml", "classes.dex")
 			c.Entries = append(c.Entries, c19GenEntry(t, rapid.SampledFrom(pool).Draw(t, "oname")))
 		}
 	default: // (d) free-form name lists: converse
